@@ -29,9 +29,9 @@ func init() {
 				Blocks:   32,
 				Procs:    16,
 				Rule: "case = (key type and comparator: int natural, int reversed via NewFunc, string natural, string case-folding via NewFunc; universe size; history of Set/Delete/Clear through the map and through a copy of it). " +
-					"After EVERY mutation: Len, Get/GetOK (all keys of small universes, sampled otherwise), Keys, String (exact comparators), First->Next sweep to the end, Last->Prev sweep to the start, Seek(k) for every k in [min-2,max+2] (sampled for large universes) followed by Next-steps and Prev-steps, re-Seek of an already positioned iterator to each kind of target, Key/Value of invalid iterators; periodically the delete-while-iterating idiom with re-Seek after each Delete; histories drain below 1/8 of their peak to reach the delete-side rebuild. Zero Map: every documented read-only method. " +
+					"After EVERY mutation: Len, Get/GetOK (all keys of small universes, sampled otherwise), Keys, String (exact comparators), First->Next sweep to the end, Last->Prev sweep to the start, Seek(k) for every k in [min-2,max+2] (sampled for large universes) followed by Next-steps and Prev-steps, re-Seek of an already positioned iterator to each kind of target, Key/Value of invalid iterators; periodically the delete-while-iterating idiom with re-Seek after each Delete; histories drain below 1/8 of their peak to reach the delete-side rebuild. Sparse-observation histories: maps of 100..1000 keys, operations chosen with locality (neighbouring keys), only the results of Set/Delete/GetOK themselves checked and nothing read in between (state carried from call to call is not disturbed by the monitor), full comparison every 400 operations. Zero Map: every documented read-only method. " +
 					"distinct = hash(comparator, universe, ops); non-trivial = the history performed seeks to all four target kinds (present, absent inside, below minimum, above maximum) and at least one Delete of a present key",
-				Required:     []string{"steps", "seek_present", "seek_absent_inside", "seek_below_min", "seek_above_max", "reseek_past_end", "iter_edit_idiom_runs", "deep_drains", "zero_map_checks", "copy_shares_checks", "prev_from_seek", "kept_iterator_reseeks", "float_key_maps"},
+				Required:     []string{"steps", "seek_present", "seek_absent_inside", "seek_below_min", "seek_above_max", "reseek_past_end", "iter_edit_idiom_runs", "deep_drains", "zero_map_checks", "copy_shares_checks", "prev_from_seek", "kept_iterator_reseeks", "float_key_maps", "sparse_observation_histories"},
 				Assumptions:  []string{"reference model: sorted slice of pairs; keys are compared with the map's own comparator (stored key spelling under a case-folding comparator is not constrained)"},
 				CoverPkgs:    []string{"github.com/creachadair/mds/omap", "github.com/creachadair/mds/stree"},
 				CoverAnchors: []string{"omap/omap.go", "stree/stree.go:InorderAfter", "stree/node.go:inorderAfter", "stree/stree.go:Cursor", "stree/stree.go:Replace", "stree/stree.go:Remove", "stree/cursor.go:Next", "stree/cursor.go:Prev", "stree/cursor.go:findNext", "stree/cursor.go:findPrev"},
@@ -63,6 +63,7 @@ type c04run[K any] struct {
 	kinds  [4]bool
 	didDel bool
 	name   string
+	sparse bool // sparse-observation history: only the results of the operations themselves are checked, nothing is read in between
 }
 
 func (x *c04run[K]) fail(format string, args ...any) {
@@ -322,7 +323,72 @@ func (x *c04run[K]) set(k K, v int, viaCopy bool) {
 	}
 	x.c.Step()
 	x.c.Add("steps", 1)
-	x.checkAll(k)
+	if !x.sparse {
+		x.checkAll(k)
+	}
+}
+
+// get is an operation of sparse-observation histories: a lookup whose result is checked.
+func (x *c04run[K]) get(k K) {
+	if x.failed {
+		return
+	}
+	x.steps++
+	x.log.add("GetOK(%v)", k)
+	i, present := x.find(k)
+	want := 0
+	if present {
+		want = x.ref[i].v
+	}
+	v, ok := x.m.GetOK(k)
+	x.c.Step()
+	x.c.Add("steps", 1)
+	if ok != present || v != want {
+		x.fail("GetOK(%v)=(%v,%v) want (%v,%v)", k, v, ok, want, present)
+	}
+}
+
+// sparseHistory: a map of at least 64 entries (size-gated fast paths), then
+// operations chosen with locality (the next key is usually a neighbour of the
+// previous one) and nothing observed except the operations' own results, so
+// that state remembered from one call to the next is not disturbed by the
+// monitor's own reads. The full comparison runs every 400 operations and at the end.
+func (x *c04run[K]) sparseHistory() {
+	r := x.r
+	x.sparse = true
+	val := 0
+	for u := 0; u < x.uni && !x.failed; u++ {
+		if r.IntN(8) != 0 {
+			val++
+			x.set(x.gen(u), val, false)
+		}
+	}
+	n := 600 + r.IntN(x.c.Pick(1500, 6000))
+	last := r.IntN(x.uni)
+	for i := 0; i < n && !x.failed; i++ {
+		if r.IntN(3) != 0 {
+			last += r.IntN(5) - 2
+		} else {
+			last = r.IntN(x.uni)
+		}
+		last = max(0, min(x.uni-1, last))
+		k := x.gen(last)
+		switch r.IntN(10) {
+		case 0, 1, 2, 3:
+			x.get(k)
+		case 4, 5, 6:
+			val++
+			x.set(k, val, false)
+		default:
+			x.del(k, false)
+		}
+		if i%400 == 399 {
+			x.checkAll(k)
+		}
+	}
+	var zk K
+	x.checkAll(zk)
+	x.c.Add("sparse_observation_histories", 1)
 }
 
 func (x *c04run[K]) del(k K, viaCopy bool) {
@@ -348,7 +414,9 @@ func (x *c04run[K]) del(k K, viaCopy bool) {
 	}
 	x.c.Step()
 	x.c.Add("steps", 1)
-	x.checkAll(k)
+	if !x.sparse {
+		x.checkAll(k)
+	}
 }
 
 // iterEdit runs the documented delete-while-iterating idiom.
@@ -513,7 +581,13 @@ func c04start[K any](c *fw.Ctx, name string, m omap.Map[K, int], cmpf func(a, b 
 	x.h.Str(name)
 	x.h.Int(uni)
 	x.h.U64(x.r.Uint64())
-	ok, pv, stack := fw.Try(func() { x.history(caseIdx) })
+	ok, pv, stack := fw.Try(func() {
+		if uni >= 100 && caseIdx%2 == 0 {
+			x.sparseHistory()
+		} else {
+			x.history(caseIdx)
+		}
+	})
 	if !ok {
 		c.FailKind("panic", map[string]any{"map": name, "universe": uni, "ops": x.log.list()}, "panic: %v\n%s", pv, stack)
 	}
@@ -576,7 +650,7 @@ func runC04(c *fw.Ctx) {
 			c04zero(c)
 		}
 		r := c.Rng()
-		uni := []int{6, 10, 16, 24, 40, 48, 200, 1000}[r.IntN(8)]
+		uni := []int{6, 10, 16, 24, 40, 48, 100, 200, 300, 1000}[r.IntN(10)]
 		if i%5 == 4 {
 			uni = 2 + r.IntN(6)
 		}
